@@ -44,12 +44,16 @@
 (*           abandoned branch (STALE)                                      *)
 (*  "mono"   (c846cf0d) the LIB is only replaced by a higher one; before,  *)
 (*           the result of calcLIB was assigned unconditionally (UNCOND)   *)
-(* A fourth repair is PROPOSED, not in the code (never in a configuration  *)
+(* Two more repairs are PROPOSED, not in the code (never in a configuration *)
 (* whose behaviours are replayed):                                         *)
 (*  "persist" the status is also saved after a block failed (as a child of *)
 (*           the best block or inside a reorganisation that is given up):  *)
 (*           Update calls made on the way may have raised the LIB, which   *)
 (*           is lost at the next restart otherwise (UNSAVED)               *)
+(*  "onchain" a rollback resets every proposal that is not a block of the  *)
+(*           height index, not only those numbered above the target: the   *)
+(*           valid prefix of a reorganisation that is given up makes       *)
+(*           proposals at or below the old best block's number (STALE2)    *)
 (***************************************************************************)
 EXTENDS Integers, Sequences, FiniteSets, TLC, Util
 
@@ -173,11 +177,16 @@ TmpFold(B, tip, T, h, end) ==
 
 \* rollbackStatusTo's reset of the proposals above the target ("stale"), then libStatus.load(end) over the main chain
 \* of `tip` (begRecoBlockNo + loadPlibStatus + merge, H1)
-ResetStale(B, pr, end) ==
-  IF "stale" \in Fixes THEN [p \in BP |-> IF pr[p] # NoPl /\ No(B, pr[p]) > end THEN 0 ELSE pr[p]] ELSE pr
+ResetStale(B, pr, end, tip) ==
+  IF "stale" \in Fixes
+  THEN [p \in BP |-> IF pr[p] = NoPl THEN NoPl
+                     ELSE IF No(B, pr[p]) > end THEN 0
+                     ELSE IF "onchain" \in Fixes /\ ~IsAnc(B, pr[p], tip) THEN 0
+                     ELSE pr[p]]
+  ELSE pr
 
 Load(B, S1, tip, end) ==
-  LET S == [S1 EXCEPT !.pr = ResetStale(B, @, end)]
+  LET S == [S1 EXCEPT !.pr = ResetStale(B, @, end, tip)]
   IN IF end = 0 THEN [S EXCEPT !.cf = <<>>]
      ELSE LET libNo == No(B, S.lib)
               m     == IF end < libNo THEN libNo ELSE end
